@@ -266,6 +266,33 @@ def _resize_family(ctx: Ctx, F) -> None:
                             g3 = it.method(g2, "downsample", levels, **kw)
                             return env.check_rel(g3, [1] * D, [0] * D, list(size))
                         _guard(ctx, "T9.resize-family", f"{tag}:up-down:{levels}:{dims}", F["upsample"], f"op=upsample levels={levels} dims={dims} {tag}", up)
+                # explicit align_corners argument (possibly different from the grid's stored default) rules both directions
+                for flag in (True, False):
+                    def updown_flag(flag=flag):
+                        n2 = [n * 2 for n in size]
+                        sc, off = _resize_rel(size, n2, flag)
+                        g2 = it.method(g, "upsample", 1, align_corners=flag)
+                        a = env.check_rel(g2, sc, off, n2)
+                        if not a[0]:
+                            return False, f"upsample(1, align_corners={flag}) on a grid with align_corners={ac}: " + a[1]
+                        g3 = it.method(g2, "downsample", 1, align_corners=flag)
+                        b = env.check_rel(g3, [1] * D, [0] * D, list(size))
+                        if not b[0]:
+                            return False, f"upsample then downsample with align_corners={flag} does not return the original grid: " + b[1]
+                        if all(Fraction(n, 2) >= 2 for n in size):
+                            import math
+                            n4 = [math.ceil(Fraction(n, 2)) for n in size]
+                            sc4, off4 = _resize_rel(size, n4, flag)
+                            g4 = it.method(g, "downsample", 1, align_corners=flag)
+                            c = env.check_rel(g4, sc4, off4, n4)
+                            if not c[0]:
+                                return False, f"downsample(1, align_corners={flag}): " + c[1]
+                            g5 = it.method(g4, "upsample", 1, align_corners=flag)
+                            d = env.check_rel(g5, [1] * D, [0] * D, list(size))
+                            if not d[0]:
+                                return False, f"downsample then upsample with align_corners={flag} does not return the original grid: " + d[1]
+                        return True, ""
+                    _guard(ctx, "T9.resize-family", f"{tag}:updown-flag:{flag}", F["upsample"], f"op=upsample/downsample align_corners_arg={flag} {tag}", updown_flag)
                 # min_size clamp: clamped axis keeps its size
                 def clamp():
                     g2 = it.method(g, "downsample", 1, min_size=max(size))
